@@ -575,6 +575,7 @@ impl<'a, T: Send> Future for RecvBatchFuture<'a, T> {
       }
     }
 
+    let was_linked = this.is_registered;
     this.is_registered = true;
     match this
       .receiver
@@ -583,10 +584,16 @@ impl<'a, T: Send> Future for RecvBatchFuture<'a, T> {
     {
       Poll::Ready(Ok(_)) => {
         this.is_registered = false;
+        if was_linked {
+          this.receiver.shared.unlink_async_receiver(state_ptr);
+        }
         Poll::Ready(Ok(out))
       }
       Poll::Ready(Err(e)) => {
         this.is_registered = false;
+        if was_linked {
+          this.receiver.shared.unlink_async_receiver(state_ptr);
+        }
         Poll::Ready(Err(e))
       }
       Poll::Pending => Poll::Pending,
@@ -664,6 +671,7 @@ impl<'a, T: Send> Future for RecvBatchMutFuture<'a, T> {
       }
     }
 
+    let was_linked = this.is_registered;
     this.is_registered = true;
     match this
       .receiver
@@ -672,6 +680,9 @@ impl<'a, T: Send> Future for RecvBatchMutFuture<'a, T> {
     {
       Poll::Ready(res) => {
         this.is_registered = false;
+        if was_linked {
+          this.receiver.shared.unlink_async_receiver(state_ptr);
+        }
         Poll::Ready(res)
       }
       Poll::Pending => Poll::Pending,
@@ -745,10 +756,14 @@ impl<'a, T: Send> Future for RecvFuture<'a, T> {
       }
     }
 
+    let was_linked = this.is_registered;
     this.is_registered = true;
     match this.receiver.shared.poll_recv_internal(cx, state_ptr) {
       Poll::Ready(res) => {
         this.is_registered = false;
+        if was_linked {
+          this.receiver.shared.unlink_async_receiver(state_ptr);
+        }
         Poll::Ready(res)
       }
       Poll::Pending => Poll::Pending,
@@ -789,16 +804,23 @@ impl<T: Send> Stream for AsyncReceiver<T> {
     }
 
     let state_ptr = &*this.state as *const AtomicU8;
+    let was_linked = this.is_registered;
     this.is_registered = true;
 
     match this.shared.poll_recv_internal(cx, state_ptr) {
       Poll::Ready(Ok(value)) => {
         this.is_registered = false;
+        if was_linked {
+          this.shared.unlink_async_receiver(state_ptr);
+        }
         this.state.store(STATE_WAITING, Ordering::Relaxed); // Reset for next recv cycle.
         Poll::Ready(Some(value))
       }
       Poll::Ready(Err(_)) => {
         this.is_registered = false;
+        if was_linked {
+          this.shared.unlink_async_receiver(state_ptr);
+        }
         this.state.store(STATE_WAITING, Ordering::Relaxed);
         Poll::Ready(None) // Disconnected
       }
